@@ -37,7 +37,7 @@ CASES = {"quick": 6400, "thorough": 150000}
 ERRS = [
     "stray_break", "stray_continue", "stray_break_loop", "undef_jump", "undef_call", "empty_last_case", "two_defaults",
     "stmt_in_msgswitch", "label_in_with", "not_on_bit", "unknown_macro", "recursive_macro", "self_recursive_macro",
-    "too_few_args", "missing_import", "cyclic_import", "routine_in_import", "missing_lookup_import", "macro_cycle", "routine_header",
+    "too_few_args", "missing_import", "cyclic_import", "routine_in_import", "missing_lookup_import", "macro_cycle", "routine_header", "bad_import_path",
 ]
 SNIPPET = {
     "stray_break": "break;",
@@ -135,6 +135,11 @@ def inject(prog, err, at):
         files["cyc_a.exps"] = 'import "./cyc_b.exps";\nmacro ca() { inj_x(); }\n'
         files["cyc_b.exps"] = 'import "./cyc_a.exps";\nmacro cb() { inj_y(); }\n'
         return 'import "./cyc_a.exps";\n' + r.text, files
+    if err == "bad_import_path":
+        # import strings the resolver must refuse or fail to find: a lookup-path import with a '.' / '..' component,
+        # an empty string, a directory, a path with a NUL-free but odd spelling
+        paths = ["lib/../macros.exps", "a/./b.exps", "..", ".", "", "lib/", "x/../../y.exps", "./", "../", "/", "a\\b.exps", "lib//x.exps", " ", "./nope/../nope.exps"]
+        return f'import "{paths[at % len(paths)]}";\n' + r.text, files
     if err == "routine_header":
         # targeted routine headers: an unknown target kind, or a decimal number as target, with every target spelling
         kinds = ["foo", "Actor", "actors", "actor", "object", "performer"]
